@@ -71,8 +71,16 @@ func main() {
 			"values from an alphabet with empty, spaced, quoted, backslashed, control, non-ASCII and invalid UTF-8 strings; streams: exhaustive small scope " +
 			"(all sequences up to a length over 2 registers, 2 keys, 2 values), random value sequences up to 60 ops ending in a comparison matrix and a dump, " +
 			"text round trips (versiontest.String/ParseString, the deptest syntax writer/ParseString, ParseSingle), malformed parser inputs (token soup), " +
-			"raw struct copies (correspondence only). A case is distinct by its line and non-trivial when it executes without bad-op and makes at least one observation.",
-		Exec:     func(f []string) string { return runLine(F(), f) },
+			"raw struct copies (correspondence only); reparse: a text (fresh to the process, or one of a handful parsed over and over) with at least one valued " +
+			"attribute is parsed, the result is edited (a value it holds replaced, a key it lacks added, a flag added), and the same text is parsed again - " +
+			"with clones taken before/after, several results alive, through the write+parse op, ParseSingle, and overwriting the register - every result of one " +
+			"text must dump and compare identically (oracle parse-function); probe reparse (Go only): the same through schema.ParseResolve and schema.New. A case is distinct by its line and non-trivial when it executes without bad-op and makes at least one observation.",
+		Exec: func(f []string) string {
+			if len(f) > 0 && f[0] == "probe" {
+				return probeReparse(f)
+			}
+			return runLine(F(), f)
+		},
 		Run:      run,
 		Recheck:  recheck,
 		Classify: classify,
